@@ -69,8 +69,10 @@ def partA_cases():
             inits.append(('several', SEVERAL[name]))
         if name in CAN_BE_UNSET:
             inits.append(('unset', []))
+        if name == 'SocksPort':
+            inits.append(('unset-with-__SocksPort', []))
         for label, vals in inits:
-            for dmode in ('listed', 'not-listed', 'unsupported'):
+            for dmode in ('listed', 'not-listed', 'other-listed', 'unsupported'):
                 out.append((name, label, tuple(vals), dmode))
     return out
 
@@ -78,15 +80,22 @@ def partA_cases():
 def run_partA(name, label, vals, dmode, extra=()):
     viol = []
     with World() as w:
+        if dmode == 'other-listed' and not extra:
+            extra = ('IntOpt',) if name != 'IntOpt' else ('BoolOpt',)
         table = [(name, list(vals))] + [(n, ONE[n]) for n in extra]
         defaults = {name: DEFAULTS[name]} if (dmode == 'listed' and name in DEFAULTS) else {}
-        impl = CfgImpl(w, table, defaults=defaults, with_defaults_key=(dmode != 'unsupported'))
+        if dmode == 'other-listed':
+            defaults = {extra[0]: DEFAULTS[extra[0]]}      # config/defaults has entries, but none for this option
+        under = ['9150'] if label == 'unset-with-__SocksPort' else None
+        impl = CfgImpl(w, table, defaults=defaults, with_defaults_key=(dmode != 'unsupported'), underscore_socks=under)
         kind = TYPES[name][1]
         feat = '%s/%s/%s' % (kind if name != 'SocksPort' else 'portlines', label, 'default-' + dmode)
         if impl.boot != ['ok']:
             viol.append(('bootstrap-failed', feat, 'option %s=%r (%s): %r' % (name, vals, dmode, impl.boot)))
             return dict(viol=viol, obs=('boot-failed',), log=[])
         default = DEFAULTS.get(name) if dmode == 'listed' else None
+        if under and default is None:
+            default = under           # an unset port option falls back to Tor's __*Port value
         want = expected_read(name, list(vals), default)
         for spelling in (name, name.lower(), name.upper()):
             got = impl.read(spelling)
@@ -145,15 +154,25 @@ def events_B():
         if TYPES[n][1] != 'comma':        # saving an edited comma list is C10's known finding
             out.append(('edit', n))
     out.append(('save',))
+    # one event announcing two options: a list option first, every other option second
+    for n1 in ('LineOpt', 'SocksPort'):
+        for n2 in B_OPTIONS:
+            if n2 != n1:
+                out.append(('changed2', n1, 0, n2, 0))
+                out.append(('changed2', n1, 1, n2, len(CHANGES[n2]) - 1))
     return out
 
 
+B_DEFAULTS = {'StrOpt': ['dflt'], 'CommaOpt': ['x,y'], 'LineOpt': ['reject *:25'], 'SocksPort': ['9050']}
+
+
 class RunB(object):
-    def __init__(self, history):
+    def __init__(self, history, with_defaults=False):
         self.viol = []
         self.log = []
+        self.defaults = B_DEFAULTS if with_defaults else {}
         with World() as w:
-            impl = CfgImpl(w, [(n, B_INIT[n]) for n in B_OPTIONS])
+            impl = CfgImpl(w, [(n, B_INIT[n]) for n in B_OPTIONS], defaults=self.defaults)
             self.impl = impl
             if impl.boot != ['ok']:
                 self.viol.append(('bootstrap-failed', 'partB', '%r' % (impl.boot,)))
@@ -168,7 +187,7 @@ class RunB(object):
                 self.step(ev)
                 if self.viol or self.skip:
                     break
-            if not self.viol and not self.skip and history and history[-1][0] == 'changed':
+            if not self.viol and not self.skip and history and history[-1][0] in ('changed', 'changed2'):
                 self.probe(history[-1][1])
             errs = w.errors()
             if errs and not self.viol:
@@ -180,7 +199,20 @@ class RunB(object):
         sim = impl.sim
         cfg = impl.cfg
         self.log.append(repr(ev))
-        if ev[0] == 'changed':
+        if ev[0] == 'changed2':
+            # one CONF_CHANGED event announcing two options
+            (n1, i1, n2, i2) = ev[1:]
+            if n1 in self.dirty or n2 in self.dirty:
+                self.skip = True
+                return
+            lines = ['']
+            for n, i in ((n1, i1), (n2, i2)):
+                vals = CHANGES[n][i]
+                sim.conf[n] = list(vals)
+                lines += ['%s=%s' % (n, v) for v in vals] if vals else [n]
+            sim.event_bytes(ctlcodec.encode_event('CONF_CHANGED', 'multi', lines))
+            sim.pump()
+        elif ev[0] == 'changed':
             name = ev[1]
             if name in self.dirty:
                 # an external change racing an unsaved local edit of the same option: whose value wins is not defined
@@ -228,7 +260,7 @@ class RunB(object):
             if n in self.dirty:
                 continue
             kind = TYPES[n][1]
-            want = parse_by_type(kind, impl.sim.conf[n])
+            want = parse_by_type(kind, impl.sim.conf[n], self.defaults.get(n))
             got = impl.read(n)
             feat = kind if n != 'SocksPort' else 'portlines'
             if kind == 'comma' and impl.sim.conf[n] and len(want) > 1 and self.log and self.log[-1] == "('save',)":
@@ -252,8 +284,9 @@ class RunB(object):
             return
         impl = self.impl
         sim = impl.sim
-        old = list(sim.conf[name])
+        old = list(sim.conf[name]) or list(self.defaults.get(name, []))
         new = '9199' if name == 'SocksPort' else 'probe'
+        others = dict((n, list(sim.conf[n])) for n in B_OPTIONS if n != name and n not in self.dirty)
         try:
             getattr(impl.cfg, name).append(new)
             d = impl.cfg.save()
@@ -262,6 +295,10 @@ class RunB(object):
         except Exception as e:
             self.viol.append(('edit-after-change-raised', '%s/%s' % (name, type(e).__name__), '%r' % (e,)))
             return
+        changed_others = [n for n in others if sim.conf[n] != others[n]]
+        if changed_others:
+            self.viol.append(('edit-after-change-hit-other-option', name, 'appended to %s and saved; Tor\'s %r changed (SETCONF log %r)'
+                              % (name, changed_others, sim.setconf_log[-1:])))
         if sim.conf[name] != old + [new]:
             self.viol.append(('edit-after-change-lost', 'portlines' if name == 'SocksPort' else 'lines',
                               'after %r: appended %r to %s and saved; Tor now has %r, expected %r (SETCONF log %r)'
@@ -278,7 +315,8 @@ def tasks(tier, seed):
     out = [('A', i, i + 12) for i in range(0, len(partA_cases()), 12)]
     out.append(('A2',))
     for i in range(len(events_B())):
-        out.append(('B', i))
+        out.append(('B', i, False))
+        out.append(('B', i, True))
     return out
 
 
@@ -300,11 +338,12 @@ def run_task(param, acc):
             rec(acc, ('A3', a, b, c), r, dict(part='A', name=a, label='one', vals=ONE[a], dmode='listed', extra=[b, c]), 3)
     else:
         evs = events_B()
-        depth = 3 if acc.tier == 'quick' else 4
+        wd = param[2]
+        depth = (3 if acc.tier == 'quick' else 4) - (1 if wd else 0)
         first = evs[param[1]]
         seen = set()
-        r0 = RunB((first,))
-        recB(acc, (first,), r0)
+        r0 = RunB((first,), wd)
+        recB(acc, (first,), r0, wd)
         frontier = [(first,)] if not r0.viol else []
         seen.add(h64(r0.key))
         level = 1
@@ -314,10 +353,10 @@ def run_task(param, acc):
             for hist in frontier:
                 for ev in evs:
                     h2 = hist + (ev,)
-                    r = RunB(h2)
+                    r = RunB(h2, wd)
                     if r.skip:
                         continue
-                    recB(acc, h2, r)
+                    recB(acc, h2, r, wd)
                     last = (h2, r)
                     if r.viol:
                         continue
@@ -339,12 +378,12 @@ def rec(acc, key, r, replay, cost):
         acc.violation('%s/%s' % (clause, feat), detail, replay, cost=cost)
 
 
-def recB(acc, hist, r):
+def recB(acc, hist, r, wd=False):
     oc = tuple(sorted(set(v[0] for v in r.viol))) or ('ok',)
-    acc.execution(key=hist, outcome='/'.join(oc), nontrivial=len(hist) >= 2, steps=len(hist) + 1)
+    acc.execution(key=(hist, wd), outcome='/'.join(oc), nontrivial=len(hist) >= 2, steps=len(hist) + 1)
     for clause, feat, detail in r.viol:
-        acc.violation('%s/%s' % (clause, feat), detail + '   history: %r' % (hist,), dict(part='B', history=[list(e) for e in hist]),
-                      cost=len(hist) * 10)
+        acc.violation('%s/%s%s' % (clause, feat, '/defaults-listed' if wd else ''), detail + '   history: %r' % (hist,),
+                      dict(part='B', history=[list(e) for e in hist], with_defaults=wd), cost=len(hist) * 10 + (1 if wd else 0))
 
 
 def replay(p):
@@ -352,8 +391,10 @@ def replay(p):
         r = run_partA(p['name'], p['label'], tuple(p['vals']), p['dmode'], tuple(p['extra']))
         return dict(violations=[dict(signature='%s/%s' % (c, f), what=d) for c, f, d in r['viol']], log=r['log'])
     hist = tuple(tuple(e) for e in p['history'])
-    r = RunB(hist)
-    return dict(violations=[dict(signature='%s/%s' % (c, f), what=d + '   history: %r' % (hist,)) for c, f, d in r.viol], log=r.log)
+    wd = p.get('with_defaults', False)
+    r = RunB(hist, wd)
+    return dict(violations=[dict(signature='%s/%s%s' % (c, f, '/defaults-listed' if wd else ''), what=d + '   history: %r' % (hist,))
+                            for c, f, d in r.viol], log=r.log)
 
 
 def meta(tier):
